@@ -71,6 +71,7 @@ class World:
         self.fire_depth = 0
         self.cur = []         # stack of (uid, hid) of running handler steps
         self.tick_no = 0
+        self._ctx = any(hd.get('sig') for hd in prog['handlers'])   # some handler does not take the event: events carry their ghost identity
         world = self
 
         ns = {}
@@ -168,6 +169,8 @@ class World:
         self.nuid += 1
         uid = self.nuid
         e._vuid = uid
+        if self._ctx:
+            e.kwargs['vctx'] = uid
         for k, v in (spec.get('flags') or {}).items():
             if v:
                 setattr(e, k, v)
@@ -226,7 +229,21 @@ class World:
     # -- handler bodies --------------------------------------------------------------------------------
     def _mk(self, hd):
         world = self
-        if hd.get('gen'):
+        if hd.get('sig') in ('noevent', 'other_name'):
+            # a handler whose signature does not ask for the event object (so the dispatcher does not hand it over): it reaches the event
+            # another way - here through the ghost identity every event of such a program carries among its keyword arguments
+            def body(comp, kwargs):
+                event = world.objs.get(kwargs.get('vctx'))
+                if event is None:
+                    return None
+                return world._run_gen(hd, event, comp) if hd.get('gen') else world._run_plain(hd, event, comp)
+            if hd['sig'] == 'noevent':
+                def h(self, *args, **kwargs):
+                    return body(self, kwargs)
+            else:
+                def h(self, evt=None, *args, **kwargs):
+                    return body(self, kwargs)
+        elif hd.get('gen'):
             def h(self, event, *args, **kwargs):
                 return world._run_gen(hd, event, self)
         else:
